@@ -50,6 +50,7 @@ type kidCfg struct {
 	NS        string                 `json:"ns,omitempty"`
 	Value     string                 `json:"value"`
 	MetaExtra map[string]interface{} `json:"metaExtra,omitempty"`
+	Status    interface{}            `json:"status,omitempty"` // the hook's desired child carries this status block
 }
 
 // initObj is one pre-existing object, described by its role.
@@ -205,6 +206,9 @@ func (sc *scenario) parentObject(kids []kidCfg, rev, extra string) sim.Obj {
 		if k.MetaExtra != nil {
 			ko["metaExtra"] = sim.DeepCopy(k.MetaExtra)
 		}
+		if k.Status != nil {
+			ko["status"] = sim.DeepCopyValue(k.Status)
+		}
 		ks = append(ks, ko)
 	}
 	spec["kids"] = ks
@@ -271,7 +275,16 @@ func genScenario(rng *rand.Rand, id string) *scenario {
 			if sharedNames {
 				name = fmt.Sprintf("kid-%s-%d", id, i)
 			}
-			sc.Kids = append(sc.Kids, kidCfg{Kind: k.Kind, Name: name, Value: values[rng.Intn(len(values))]})
+			kc := kidCfg{Kind: k.Kind, Name: name, Value: values[rng.Intn(len(values))]}
+			// one desired child in eight carries a status block, as templates copied from live
+			// objects do (decided by the name, so that the rest of the scenario stream is unchanged)
+			switch h := sim.Hash(name + "status"); {
+			case h[0] == '0':
+				kc.Status = map[string]interface{}{}
+			case h[0] == '1':
+				kc.Status = map[string]interface{}{"phase": "Wanted"}
+			}
+			sc.Kids = append(sc.Kids, kc)
 		}
 	}
 	// initial contents
@@ -407,6 +420,8 @@ func (r *scenarioRun) asCreatedByMC(k kidCfg, value string) sim.Obj {
 	for f := range k.MetaExtra {
 		delete(obj["metadata"].(map[string]interface{}), f)
 	}
+	// ... and a status block in the desired child never reaches the stored object
+	delete(obj, "status")
 	sim.AddOwner(obj, r.parent, true)
 	return obj
 }
@@ -422,6 +437,9 @@ func (r *scenarioRun) desiredChild(k kidCfg, value string) sim.Obj {
 	kid := sim.KidSpec(kindInfo(k.Kind), r.sc.childNS(k), k.Name, value)
 	if k.MetaExtra != nil {
 		kid["metaExtra"] = sim.DeepCopy(k.MetaExtra)
+	}
+	if k.Status != nil {
+		kid["status"] = sim.DeepCopyValue(k.Status)
 	}
 	return sim.BuildChild(kid, labels, r.rev, r.extra)
 }
